@@ -21,13 +21,55 @@ def class_locks(ci: ClassInfo):
     return out
 
 
+_CM_CACHE = {}
+
+
+def _cm_lock_attrs(w: ast.With, recv="self"):
+    """`with self.m():` where m is a @contextmanager method of the enclosing class (or a class with __enter__/__exit__
+    is not followed here) that holds `self.L` around its single yield (`with self.L: yield` or acquire … yield … release):
+    the with-statement is a region of L"""
+    out = []
+    cls = parent(w)
+    while cls is not None and not isinstance(cls, ast.ClassDef):
+        cls = parent(cls)
+    if cls is None:
+        return out
+    for it in w.items:
+        e = it.context_expr
+        if isinstance(e, ast.Call) and isinstance(e.func, ast.Attribute) and isinstance(e.func.value, ast.Name) and e.func.value.id == recv:
+            key = (id(cls), e.func.attr)
+            if key not in _CM_CACHE:
+                attrs = []
+                for m in cls.body:
+                    if isinstance(m, ast.FunctionDef) and m.name == e.func.attr and any((dotted(d) or "").split(".")[-1] == "contextmanager" for d in m.decorator_list):
+                        for y in ast.walk(m):
+                            if isinstance(y, (ast.Yield, ast.YieldFrom)):
+                                q = parent(y)
+                                while q is not None and q is not m:
+                                    if isinstance(q, ast.With):
+                                        for i2 in q.items:
+                                            c2 = i2.context_expr
+                                            if isinstance(c2, ast.Attribute) and isinstance(c2.value, ast.Name) and c2.value.id == recv:
+                                                attrs.append(c2.attr)
+                                    if isinstance(q, ast.Try) and q.finalbody:
+                                        for st in q.finalbody:
+                                            for c3 in ast.walk(st):
+                                                if isinstance(c3, ast.Call) and isinstance(c3.func, ast.Attribute) and c3.func.attr == "release" and is_self_attr(c3.func.value):
+                                                    attrs.append(c3.func.value.attr)
+                                    q = parent(q)
+                _CM_CACHE[key] = attrs
+            out.extend(_CM_CACHE[key])
+    return out
+
+
 def with_lock_attr(w: ast.With, recv="self"):
-    """lock attrs acquired by a with statement on `<recv>.<attr>`"""
+    """lock attrs acquired by a with statement on `<recv>.<attr>` or through a lock-holding @contextmanager helper"""
     out = []
     for it in w.items:
         e = it.context_expr
         if isinstance(e, ast.Attribute) and isinstance(e.value, ast.Name) and e.value.id == recv:
             out.append(e.attr)
+    out.extend(_cm_lock_attrs(w, recv))
     return out
 
 
